@@ -379,3 +379,5 @@ func isLoad(v ssa.Value) (*ssa.UnOp, bool) {
 	}
 	return nil, false
 }
+
+func strconvF(f float64) string { return fmtFloat(f) }
